@@ -653,15 +653,12 @@ def _sig_variants(cx, pkg, fields):
     rng = cx.rng
     cands = []
     for f in fields:
-        if f.get("oneof"):
-            continue
         cands.append(f["name"])
         if f["type"] == "message" and not f.get("repeated") and not f.get("map") and f.get("type_name", "").startswith("." + pkg + "."):
             sub = _lookup_msg(cx, f["type_name"])
             if sub is not None:
                 for g in sub["fields"]:
-                    if not g.get("oneof"):
-                        cands.append(f["name"] + "." + g["name"])
+                    cands.append(f["name"] + "." + g["name"])
     sigs = []
     for _ in range(rng.choice([1, 1, 2])):
         k = rng.randint(1, min(4, len(cands)))
